@@ -20,10 +20,20 @@ type c21Case struct {
 	// steps must stay on their grid (the four generators are independent)
 	Other int `json:"other,omitempty"`
 	At    int `json:"at,omitempty"`
+	// Idle: machine cycles the sound hardware runs before the channel is programmed; Cycles > 0: the channel is observed
+	// for that many machine cycles (every step in them) instead of a number of steps. Together they place the run
+	// anywhere in emulated time (the generators count emulated time for as long as the machine runs)
+	Idle   int `json:"idle,omitempty"`
+	Cycles int `json:"cycles,omitempty"`
 }
 
 func c21Setup(ch, f int, silent ...bool) *machine.M {
 	m := machine.New(machine.ROMOnly(), machine.Opts{})
+	c21Program(m, ch, f, silent...)
+	return m
+}
+
+func c21Program(m *machine.M, ch, f int, silent ...bool) {
 	w := m.Map.Write
 	w(0xff26, 0x00)
 	w(0xff26, 0x80)
@@ -51,14 +61,22 @@ func c21Setup(ch, f int, silent ...bool) *machine.M {
 		w(0xff22, uint8(f))
 		w(0xff23, 0x80)
 	}
-	return m
 }
 
 func c21Check(l *explore.Local, _ struct{}, c c21Case) *explore.Fail {
 	if c.Ch >= 5 {
 		return c21LFSR(l, c)
 	}
-	m := c21Setup(c.Ch, c.F, c.Silent)
+	var m *machine.M
+	if c.Idle > 0 {
+		m = machine.New(machine.ROMOnly(), machine.Opts{})
+		for i := 0; i < c.Idle; i++ {
+			m.A.EndMachineCycle()
+		}
+		c21Program(m, c.Ch, c.F, c.Silent)
+	} else {
+		m = c21Setup(c.Ch, c.F, c.Silent)
+	}
 	var period int // clock cycles per waveform step
 	name := ""
 	mod := 8
@@ -96,6 +114,9 @@ func c21Check(l *explore.Local, _ struct{}, c c21Case) *explore.Fail {
 	steps := 0
 	prev := pos()
 	maxCycles := (c.Steps + 2) * (period/4 + 1)
+	if c.Cycles > 0 {
+		maxCycles, c.Steps = c.Cycles, 1<<30
+	}
 	for n := 1; n <= maxCycles && steps < c.Steps; n++ {
 		if c.Other > 0 && n == c.At {
 			w := m.Map.Write
@@ -147,6 +168,9 @@ func c21Check(l *explore.Local, _ struct{}, c c21Case) *explore.Fail {
 			return explore.Failf(name, "%s: after %d machine cycles %d steps were taken; no phase is consistent with one step every %d clock cycles", what, n, steps, period)
 		}
 		l.Trans(1)
+	}
+	if c.Cycles > 0 {
+		c.Steps = steps
 	}
 	if steps < c.Steps {
 		return explore.Failf(name, "f=%x: only %d steps in %d machine cycles (period %d clocks)", c.F, steps, maxCycles, period)
@@ -355,10 +379,10 @@ func c21LFSR(l *explore.Local, c c21Case) *explore.Fail {
 func init() {
 	register("C21", "model_checking", func(c *Ctx) {
 		if c.R != nil {
-			c.R.Rule = "waveform positions are read (hook) after every machine cycle: for channels 1-3 and every enumerated 11-bit frequency f the cumulative number of duty/wave steps after N machine cycles must equal floor((4N+phi)/P) for one phase phi and P = 4(2048-f) (2(2048-f) for channel 3) over 24 steps; for channel 4 and every NR43 value with s <= 13 the LFSR must step every d(r)*2^s clock cycles over 6 steps; when the frequency changes while a channel runs (channel 1 sweep settings; NRx3/NRx4 rewritten without a trigger at 8 offsets within a period) the steps that follow must again be one per 4(2048-f) clock cycles for the new f (current f read through the hook; the period in flight is not judged); at the fastest clock the output bit sequence over 3 periods must have minimal period 32,767 (15-bit) / 127 (7-bit) and be a rotation of the documented LFSR sequence"
+			c.R.Rule = "waveform positions are read (hook) after every machine cycle: for channels 1-3 and every enumerated 11-bit frequency f the cumulative number of duty/wave steps after N machine cycles must equal floor((4N+phi)/P) for one phase phi and P = 4(2048-f) (2(2048-f) for channel 3) over 24 steps (and over every step of 0.35 s runs that start 0.9 s and 1.9 s after the sound hardware); for channel 4 and every NR43 value with s <= 13 the LFSR must step every d(r)*2^s clock cycles over 6 steps; when the frequency changes while a channel runs (channel 1 sweep settings; NRx3/NRx4 rewritten without a trigger at 8 offsets within a period) the steps that follow must again be one per 4(2048-f) clock cycles for the new f (current f read through the hook; the period in flight is not judged); at the fastest clock the output bit sequence over 3 periods must have minimal period 32,767 (15-bit) / 127 (7-bit) and be a rotation of the documented LFSR sequence"
 			c.R.Assumptions = []string{"quick: all f with at most 2 bits set or at most 2 bits clear plus neighbours of 0x400 (the thorough tier enumerates all 2,048)", "the phase of each generator after a trigger is a convention (calibrated)"}
 		}
-		explore.Product(c.R, "step-periods", explore.PartOpt{Bound: "24 waveform steps (6 LFSR steps) per configuration", Domain: "channels 1-3 x f; channel 4 x NR43 with s<=13; while another channel is triggered at 20 offsets (all 12 ordered pairs); the same at volume 0 with the DAC on (5 frequencies; NR43 with s<=6); LFSR sequences"},
+		explore.Product(c.R, "step-periods", explore.PartOpt{Bound: "24 waveform steps (6 LFSR steps) per configuration", Domain: "channels 1-3 x f; channel 4 x NR43 with s<=13; runs of 0.35 s placed across the first and second whole second of emulated time; while another channel is triggered at 20 offsets (all 12 ordered pairs); the same at volume 0 with the DAC on (5 frequencies; NR43 with s<=6); LFSR sequences"},
 			func(yield func(c21Case) bool) {
 				for ch := 1; ch <= 3; ch++ {
 					for f := 0; f < 2048; f++ {
@@ -424,6 +448,23 @@ func init() {
 				}
 				yield(c21Case{Ch: 5})
 				yield(c21Case{Ch: 6})
+				// long runs placed across whole seconds of emulated time: the channel starts 0.9 s (1.9 s) after the sound
+				// hardware and is observed for 0.35 s, every step
+				for ch := 1; ch <= 4; ch++ {
+					for _, f := range []int{0x700, 0x7ff, 0x400} {
+						if ch == 4 {
+							f = map[int]int{0x700: 0x00, 0x7ff: 0x12, 0x400: 0x37}[f]
+						}
+						for _, idle := range []int{943_000, 2*1048576 - 100_000} {
+							if idle > 1048576 && !c.Thorough() && f != 0x700 && f != 0x00 {
+								continue
+							}
+							if !yield(c21Case{Ch: ch, F: f, Idle: idle, Cycles: 370_000}) {
+								return
+							}
+						}
+					}
+				}
 			}, func() struct{} { return struct{}{} }, c21Check)
 		explore.Product(c.R, "frequency-changes", explore.PartOpt{Bound: "sweep: 60,000 machine cycles (7 sweep clocks); register change: 12 periods", Domain: "channel 1 sweep: NR10 in 12 period/direction/shift settings x 6 start frequencies; channels 1-3: 6 (f0,f1) pairs x register write at 8 offsets within a period"},
 			func(yield func(c21Change) bool) {
